@@ -26,7 +26,9 @@
      POUserinfo    oauth2_openid_userinfo       -> check_oauth2_account_uuid_valid
      PRadius       get_radiusauthtoken (server.rs:1725): impersonate_search_ext_uuid gives the
                    ACCESS-REDUCED entry; RadiusAccount::try_from_entry_reduced reads secret, name,
-                   displayname AND valid_from / expire from it; to_radiusauthtoken gates with `<`
+                   displayname AND valid_from / expire from it; since fix ed71ad3 the window of
+                   the unreduced entry (internal_search_uuid) is checked first with the inclusive
+                   gate; to_radiusauthtoken then gates the reduced values with `<`
      PUnixTok      get_unixusertoken: impersonate_search_uuid (full entry), token.valid = gate
 
    Times are nanoseconds relative to the harness' BASE instant. *)
@@ -34,9 +36,11 @@ From Coq Require Import List NArith Bool.
 Import ListNotations.
 Open Scope N_scope.
 
-(* false = the tree as pinned: the RADIUS path takes the window from the reduced entry only;
-   true  = with fixes/C49.patch: get_radiusauthtoken also checks the window of the unreduced entry *)
-Definition tree_fixed : bool := false.
+(* true  = /repo HEAD (fix ed71ad3, fixes/C49.patch): get_radiusauthtoken also checks the window of
+           the UNREDUCED entry with Account::check_within_valid_time;
+   false = the tree before the fix: the RADIUS path takes the window from the reduced entry only
+           (kept as `run_gen false`; theorems named C49_prefix_...) *)
+Definition tree_fixed : bool := true.
 
 Definition otime := option N.
 Record win := mkwin { w_vf : otime; w_ex : otime }.
@@ -153,7 +157,8 @@ Definition run : path -> win -> N -> outcome := run_gen tree_fixed.
 Definition is_grant (o : outcome) : bool := match o with OGrant => true | _ => false end.
 
 (* ------------------------------------------------------------------ known-finding classes *)
-(* radius-reduced-validity: every bound the instant violates is hidden from the requester *)
+(* radius-reduced-validity (tree before fix ed71ad3 only): every bound the instant violates is
+   hidden from the requester *)
 Definition radius_class (p : path) (w : win) (ct : N) : bool :=
   match p with
   | PRadius _ rd _ => outsideb ct w && within_lt ct (reduce rd w)
